@@ -31,7 +31,7 @@ def run(tier):
     chk = vlib.Check("C18", tier)
     thorough = tier == "thorough"
     chk.model("MCRand48", what="StepLimbs refines Step; erand48 bit packing satisfies the POSIX relation; ranges; boundary states x all op sequences")
-    exe = vlib.compile_harness("rec_rand", ["rec_rand.cpp", os.path.join(vlib.REPO, "src/Imath/ImathRandom.cpp")])
+    exe = vlib.compile_harness("rec_rand", ["rec_rand.cpp", os.path.join(vlib.REPO, "src/Imath/ImathRandom.cpp")], flags=["-ffp-contract=off"])
     w = chk.work
     eps = 400 if thorough else 60
     nshard = 16
@@ -45,6 +45,14 @@ def run(tier):
     chk.traces("Rand48Trace", files, what="Imath rand48 family: interleaved srand48/lrand48/drand48/nrand48/erand48", episodes=eps * nshard)
     chk.traces("Rand48Trace", ofiles, what="Rand32/Rand48 objects: ranges, samplers, determinism against twins")
     g = chk.traces("Rand48Trace", gfiles, what="glibc's rand48 family under the same spec (validates the spec as a statement of POSIX)")
+    # solidSphereRand at the resolution of its rejection test: millions of draws, the near-boundary ones judged exactly
+    bfiles = vlib.parallel(lambda i: vlib.run_to_file([exe, "ballscan", str(vlib.SEED * 16 + i), str(2000 if thorough else 700)], os.path.join(w, "ball.%02d.ndjson" % i)), range(8))
+    allb = os.path.join(w, "ball.ndjson")
+    with open(allb, "w") as gg:
+        for bf in bfiles:
+            gg.write(open(bf).read())
+    bsh, nb = vlib.split_file(allb, 16, w, "ballsh")
+    chk.traces("Rand48Trace", bsh, what="solidSphereRand<V2f/V3f/V4f/V3d>(Rand48 / Rand32): 8 x 6 seeds x %d draws each, the points within 2^-20 of the unit sphere judged with the float-exact squared length <= 1" % ((2000 if thorough else 700) * 1000))
     bp, beh = export_behaviours(chk, 5 if thorough else 4)
     rp = vlib.run_to_file([exe, "replay", bp], os.path.join(w, "replay.ndjson"))
     rfiles, _ = vlib.split_file(rp, 8, w, "replay")
@@ -53,6 +61,7 @@ def run(tier):
     chk.sample_lines(ofiles[0], idx=(2, 5))
     chk.sample(beh[1] if len(beh) > 1 else beh)
     chk.assumptions += ["Rand32/Rand48 seeding formulas are not pinned (the property only demands a pure function of the seed): determinism is checked against twin objects",
-                        "2^48 states are sampled (boundary states + seeded random), not enumerated"]
+                        "2^48 states are sampled (boundary states + seeded random), not enumerated",
+                        "the ball scan models Vec::length2() as unfused IEEE arithmetic; the recorder is compiled with -ffp-contract=off so that the library's inline code is"]
     return chk.finish(extra_cov={"behaviours_replayed": len(beh),
                                  "rule": "episodes = seeded random interleavings of all entry points over 4 caller-visible state arrays (half of them boundary states) and the static state; distinct records counted"})
